@@ -91,6 +91,19 @@ Theorem holder_heartbeat_keeps_running :
 Proof. split; [reflexivity|]. exact (holder_heartbeat_l facts eq_refl eq_refl). Qed.
 Print Assumptions holder_heartbeat_keeps_running.
 
+(* Unlock's re-check after the removal: a Stat that FAILS (whatever the error — the schedules inject EACCES, EPERM, EIO
+   and the lie "does not exist" on every read-side operation) counts as "absent", so an Unlock whose removal succeeded
+   and whose check finds nothing — or cannot look — returns at once: no retry, no second removal. *)
+Theorem unlock_stops_when_check_finds_nothing :
+  cond_exists facts = true /\
+  (forall r, r = ROther \/ r = RNotExist ->
+     match exists_ PDir with Do (OStat PDir) k => k r = Ret false | _ => False end) /\
+  forall m, unlock_attempts facts (S m) =
+    (r <- rm_dir ;; match r with Err => unlock_attempts facts m
+                    | Ok _ => e <- exists_ PDir ;; if e then unlock_attempts facts m else Ret AOk end).
+Proof. split; [reflexivity|]. split; [intros r [-> | ->]; reflexivity|]. intros m. reflexivity. Qed.
+Print Assumptions unlock_stops_when_check_finds_nothing.
+
 (* The code's staleness verdict IS "the time stamp is older than 100 ms" (2 heartbeat periods of 50 ms, strict, in
    milliseconds on both sides), for the empty lock directory and for the heartbeat file alike — the canonical verdict
    the ghost windows, the oracle hypothesis and the harness use. *)
@@ -126,7 +139,7 @@ Proof. vm_compute. repeat split. Qed.
    retry destroys its successor's lock and two live contenders hold. *)
 Theorem lock_mutex_refuted_K1 : exists ovrs its s,
   final facts ovrs its = Some s /\ respects_oracle facts (init ovrs []) its = true /\
-  forallb (fun it => match it with IStep _ _ a => negb (canon a) | _ => true end) its = true /\
+  forallb (fun it => match it with IStep _ _ a fl => negb (canon a) && match fl with FNone => true | _ => false end | _ => true end) its = true /\
   forallb (fun it => match it with IKill _ => false | _ => true end) its = true /\
   2 <= live_holders s /\ bad s = true.
 Proof. exists k1_ovr, (map item_of k1_entries). eexists. vm_compute. repeat split; auto. Qed.
